@@ -683,4 +683,56 @@ theorem data_ok (bits : Bits) :
       simp only [beq_self_eq_true, if_true]
       rw [hb, hpad, stripTag_pad]
 
+/-! ### semantic layer: the duplicate check -/
+
+theorem noDup_fold (keys : List Nat) : ∀ (s : Std.HashSet Nat) (seen : List Nat) (ok : Bool),
+    (∀ k, s.contains k = true ↔ k ∈ seen) →
+    ((keys.foldl (fun (st : Std.HashSet Nat × Bool) k => (st.1.insert k, st.2 && !st.1.contains k)) (s, ok)).2 = true ↔
+      (ok = true ∧ keys.Nodup ∧ ∀ k ∈ keys, k ∉ seen)) := by
+  induction keys with
+  | nil => intro s seen ok _; simp
+  | cons k ks ih =>
+    intro s seen ok hs
+    simp only [List.foldl_cons]
+    rw [ih (s.insert k) (k :: seen) (ok && !s.contains k) (by
+      intro x
+      rw [Std.HashSet.contains_insert, Bool.or_eq_true, hs x, List.mem_cons]
+      constructor
+      · rintro (h | h)
+        · left; exact (by simpa using h : k = x).symm
+        · right; exact h
+      · rintro (h | h)
+        · left; simpa using h.symm
+        · right; exact h)]
+    have hk := hs k
+    rw [List.nodup_cons]
+    constructor
+    · rintro ⟨h0, h1, h2⟩
+      simp only [Bool.and_eq_true, Bool.not_eq_true'] at h0
+      have hks : k ∉ seen := by
+        intro hmem
+        have := hk.2 hmem
+        rw [this] at h0; cases h0.2
+      refine ⟨h0.1, ⟨fun h => (h2 k h) (by simp), h1⟩, ?_⟩
+      intro x hx
+      rcases List.mem_cons.1 hx with rfl | hx
+      · exact hks
+      · exact fun hm => (h2 x hx) (by simp [hm])
+    · rintro ⟨h0, ⟨h1, h2⟩, h3⟩
+      have hks : k ∉ seen := h3 k (by simp)
+      have : s.contains k = false := by
+        cases hc : s.contains k with
+        | false => rfl
+        | true => exact absurd (hk.1 hc) hks
+      refine ⟨by simp [h0, this], h2, ?_⟩
+      intro x hx
+      rw [List.mem_cons, not_or]
+      exact ⟨fun e => h1 (e ▸ hx), h3 x (by simp [hx])⟩
+
+/-- the strict reader's duplicate check is exactly `List.Nodup` on the keys -/
+theorem noDup_iff (keys : List Nat) : noDup keys = true ↔ keys.Nodup := by
+  unfold noDup
+  rw [noDup_fold keys ∅ [] true (by intro k; simp)]
+  simp
+
 end TonVerif.Proofs.BocEmit
